@@ -12,13 +12,16 @@ from pbt.core import Result, silence, exc_sig
 
 ID = "C15"
 LEVEL = "exploration"
-EXAMPLES = {"quick": 480, "thorough": 9000}
+EXAMPLES = {"quick": 400, "thorough": 9000}
 DEADLINE_S = {"quick": 300, "thorough": 3000}
+# Hypothesis needs minutes to shrink a network recipe + case list (each attempt re-draws the grid); the quick tier
+# reports the smallest failing case found instead (hand-reduced witnesses are in replays/)
+NO_SHRINK = {"quick": True, "thorough": False}
 POOL_TIMEOUT_S = 600
-REAL_POOLS = {"quick": 6, "thorough": 48}
+REAL_POOLS = {"quick": 4, "thorough": 32}
 RULE = ("Cases as for C14 (meshed networks, ordered N-1 case dict over lines/trafos/trafo3w, limits, options) plus a "
-        "parallel mode: 'pool' = run_contingency_parallel with a real multiprocessing pool and n_procs in {2,3} (6 "
-        "generated cases per quick run, 48 per thorough run, enumerated from VERIF_SEED) or n_procs=1 (1 in 8 "
+        "parallel mode: 'pool' = run_contingency_parallel with a real multiprocessing pool and n_procs in {2,3} (4 "
+        "generated cases per quick run, 32 per thorough run, enumerated from VERIF_SEED) or n_procs=1 (1 in 8 "
         "generated cases); 'sched' = schedule exploration: the multiprocessing module seen by contingency_parallel is "
         "replaced by a shim whose Pool.map runs the worker function per task (pickle round trip of the worker partial "
         "and of its result pack, as a real pool does) and hands the result packs to the aggregation loop in a drawn "
